@@ -50,6 +50,7 @@ type replayState struct {
 	cobjs    map[int][]int       // spec commit id -> object ids in its snapshot
 	vacuumed map[int]bool        // spec object ids whose files were removed
 	prev     *Step
+	warm     *Lake // long-lived handle (Replayer.Warm)
 }
 
 func (r *replayState) clone() *replayState {
@@ -84,9 +85,14 @@ type Replayer struct {
 	// remote client for C19); default: a fresh local handle per step.
 	// CheckCommits re-reads every earlier commit after every step (C13).
 	CheckCommits bool
-	Steps        int64
-	Drifts       int64
-	cmp          expr.CompareFn
+	// Warm replays every history from the start through ONE long-lived handle
+	// (warm journal/snapshot caches, as in the service), reads every branch
+	// through it after every step, and still judges every step with a fresh
+	// handle that sees persisted state only.
+	Warm   bool
+	Steps  int64
+	Drifts int64
+	cmp    expr.CompareFn
 }
 
 const PoolName = "p"
@@ -136,6 +142,27 @@ func (rp *Replayer) ReplayAll(hs []History) error {
 			}
 			n = kid
 		}
+	}
+	if rp.Warm {
+		for _, h := range hs {
+			st, err := rp.newRoot()
+			if err != nil {
+				return err
+			}
+			if st.warm, err = Open(rp.Ctx, st.store, 0, nil); err != nil {
+				return err
+			}
+			for i := range h {
+				ok, err := rp.apply(h[:i+1], st)
+				if err != nil {
+					return fmt.Errorf("history %s: %w", h[:i+1], err)
+				}
+				if !ok {
+					break
+				}
+			}
+		}
+		return nil
 	}
 	st, err := rp.newRoot()
 	if err != nil {
@@ -187,9 +214,12 @@ func msg() api.CommitMessage { return api.CommitMessage{Author: "verif"} }
 func (rp *Replayer) apply(h History, st *replayState) (bool, error) {
 	s := &h[len(h)-1]
 	rp.Steps++
-	lk, err := Open(rp.Ctx, st.store, 0, nil)
-	if err != nil {
-		return false, err
+	lk := st.warm
+	if lk == nil {
+		var err error
+		if lk, err = Open(rp.Ctx, st.store, 0, nil); err != nil {
+			return false, err
+		}
 	}
 	var commit ksuid.KSUID
 	var opErr error
@@ -267,12 +297,35 @@ func (rp *Replayer) apply(h History, st *replayState) (bool, error) {
 	for _, o := range s.Removed {
 		st.vacuumed[o] = true
 	}
+	okAll := true
+	// The long-lived handle is read first (before any other process persists snapshots of the new
+	// commits) and must show the model's contents.
+	if st.warm != nil {
+		for _, b := range sortedKeys(s.Tips) {
+			if !s.Readable[b] {
+				continue
+			}
+			rows, err := st.warm.Query(rp.Ctx, fmt.Sprintf("from %s@%s", PoolName, b))
+			if err != nil {
+				rp.issue(h, KUnreadable, "branch %q cannot be read through the long-lived handle: %v", b, err)
+				okAll = false
+				continue
+			}
+			gs := uids(rows)
+			sort.Ints(gs)
+			want := append([]int(nil), s.Data[b]...)
+			sort.Ints(want)
+			if !equalInts(gs, want) {
+				rp.issue(h, KContents, "branch %q read through the long-lived handle holds values %v but the model predicts %v", b, gs, want)
+				okAll = false
+			}
+		}
+	}
 	// A fresh handle observes the result (cold caches; persisted state only).
 	obs, err := Open(rp.Ctx, st.store, 1, nil)
 	if err != nil {
 		return false, err
 	}
-	okAll := true
 	for _, b := range sortedKeys(s.Tips) {
 		rows, err := obs.Query(rp.Ctx, fmt.Sprintf("from %s@%s", PoolName, b))
 		if err != nil {
